@@ -71,7 +71,8 @@ class C02:
                  "reference delivery model and a reference capacity model")
     RULE = ("Hypothesis builds 2-3 real J1939-22 stacks (1-2 CAs each, optional unfiltered ECU listener, max_cmdt_packets 1..255, "
             "latency lists over (0, 5 ms]) and 1-2 bursts of 1..14 messages of 61..20000 bytes (all residues mod 60; RTS/CTS, "
-            "PDU1->255, PDU2, unowned destination) submitted in the same instant from one, two or all stacks (bursts that cannot exceed a capacity are also staggered by 2..80 ms '
+            "PDU1->255, PDU2, unowned destination) submitted in the same instant from one, two or all stacks (bursts that cannot "
+            "exceed a capacity are also staggered by 2..80 ms "
             "and submitted from the application context, from a timer callback of the stack or from inside a receive callback; "
             "send calls take 0..0.5 ms, receive callbacks 0..20 ms); per stack the "
             "first 8 destination-specific and first 4 broadcast calls of a burst must return True and be delivered per the "
